@@ -35,6 +35,38 @@ ENGINES = {
 }
 
 
+def run_demo_oracles(out: Outcome, prop: str) -> None:
+    """Thorough tier: the demo programs kept with the seeded changes (seeded/<id>/demo.py) each check the property's own
+    wording against a reference written by someone who saw only the property text (small reference PEG evaluators,
+    explicit-trivia grammars, full-copy stacks, json.loads …).  They print PASS on a tree where the property holds; here they
+    are run on the current tree as additional, independently written oracles.  A FAIL is reported with the demo's output."""
+    import subprocess
+
+    from common import REPO
+    n = 0
+    for d in sorted((ROOT / "seeded").iterdir()):
+        meta_f, demo = d / "meta.json", d / "demo.py"
+        if not (meta_f.exists() and demo.exists()):
+            continue
+        try:
+            meta = json.loads(meta_f.read_text())
+        except ValueError:
+            continue
+        if meta.get("property") != prop:
+            continue
+        try:
+            r = subprocess.run(["/venv/bin/python", str(demo)], cwd=str(REPO), capture_output=True, text=True, timeout=600,
+                               env={**os.environ, "PYTHONPATH": str(REPO / "src")})
+        except subprocess.TimeoutExpired:
+            continue
+        n += 1
+        if r.returncode == 1 and "FAIL" in r.stdout:
+            out.violation({"kind": "demo-oracle", "demo": str(demo.relative_to(ROOT)), "what": "an independently written oracle for this property fails on the current tree",
+                           "output_tail": r.stdout[-3000:], "command": f"PYTHONPATH=<repo>/src /venv/bin/python {demo.relative_to(ROOT)}"})
+    if isinstance(out.coverage, dict):
+        out.coverage["demo_oracles_run"] = n
+
+
 def main() -> int:
     ap = argparse.ArgumentParser()
     ap.add_argument("prop")
@@ -74,6 +106,8 @@ def main() -> int:
             mod.replay(out, json.loads(p.read_text()))
         else:
             mod.run(out)
+        if a.tier == "thorough" and not a.replay:
+            run_demo_oracles(out, a.prop)
     except Exception:  # noqa: BLE001
         traceback.print_exc()
         out.infra_error = "harness crashed"
